@@ -50,12 +50,13 @@ def attach_all():
     from polyply.src.graph_utils import neighborhood
 
     def mk_add(orig):
-        def add_positions(self, point, mol_idx, node_key, start=True):
+        def add_positions(self, point, mol_idx, node_key, *a, **k):
+            start = k.get("start", a[0] if a else True)      # only read by the monitor; the call is passed on as it came
             if CTX:
                 CTX["adds"] += 1
                 if not np.all(np.isfinite(point)):
                     CTX["nonfinite"].append(("add_positions", mol_idx, node_key))
-            out = orig(self, point, mol_idx, node_key, start=start)
+            out = orig(self, point, mol_idx, node_key, *a, **k)
             if CTX and start:
                 CTX["starts"].append((mol_idx, node_key, np.array(point, dtype=float)))
                 check_placement(self, CTX.get("walk"), mol_idx, node_key, np.array(point, dtype=float), None, None, True)
@@ -89,8 +90,8 @@ def attach_all():
         return update_positions
 
     def mk_overlap(orig):
-        def _is_overlap(self, point, node, nrexcl=1):
-            r = orig(self, point, node, nrexcl)
+        def _is_overlap(self, point, node, *a, **k):          # defaults are the program's, not the wrapper's
+            r = orig(self, point, node, *a, **k)
             if CTX and r:
                 CTX["rejected_trials"] += 1
             return r
